@@ -242,6 +242,30 @@ func runC20(c *core.Ctx) {
 					}
 				}
 				if !okFresh {
+					// shared, but put back into its initial state in the loop (clear(resolver.seen))?
+					resets := false
+					for _, h := range loopHeads(g) {
+						body := g.ReachFrom(succ(h, core.EdgeTrue), true, core.AvoidVs(h))
+						if !body[dr.V] {
+							continue
+						}
+						for bv := range body {
+							if bv.AST == nil {
+								continue
+							}
+							for _, cs := range core.CallsIn(info, bv.AST, false) {
+								if cs.Key == "builtin.clear" || strings.HasSuffix(strings.ToLower(cs.Key), "reset") {
+									resets = true
+								}
+							}
+						}
+					}
+					if resets {
+						o.Unrec("%s: the /Length resolver %s is shared between objects and something is cleared in the loop: whether that restores the resolver's budget is not followed", c.Prog.Pos(dr.Call.Pos()), core.ExprStr(arg))
+						continue
+					}
+				}
+				if !okFresh {
 					o.FailAt(fn.Site(dr.Call, ""), "the /Length resolver %s is shared between objects: its never-cleared seen-set and its cap make later objects fail to resolve their /Length", core.ExprStr(arg))
 				}
 			}
@@ -489,7 +513,11 @@ func runC20(c *core.Ctx) {
 			if bv.Cond.Expr == nil {
 				continue
 			}
+			facts := append([]core.Atom{}, bv.Implied(core.EdgeTrue)...)
 			for _, a := range bv.Implied(core.EdgeTrue) {
+				facts = append(facts, g.ExpandNamed(a)...) // superseded := known && generation < previous.Generation
+			}
+			for _, a := range facts {
 				cmp, ok := a.AsCmp()
 				if !ok {
 					continue
@@ -953,6 +981,19 @@ func runC20(c *core.Ctx) {
 			}
 			obj := core.ObjOf(info, e)
 			okLocal := obj != nil && obj != recv
+			// a part of what a constructor of the package returns (fi.newGetter().fn): fresh if the
+			// constructor hands out storage it allocated itself
+			if sel, isSel := e.(*ast.SelectorExpr); isSel {
+				if call, isCall := ast.Unparen(sel.X).(*ast.CallExpr); isCall {
+					if callee := core.Callee(info, call); callee != nil {
+						if cf := ma.S.FuncValue(callee); cf != nil && ma.ReturnsFresh(cf) {
+							continue
+						}
+					}
+					o.Unrec("%s: the resolver returned (%s) is taken from the result of a call that was not shown to allocate it", c.Prog.Pos(rs.Pos()), c.Prog.Src(e))
+					continue
+				}
+			}
 			if sel, isSel := e.(*ast.SelectorExpr); isSel {
 				// a method value of an object allocated by this call is as
 				// fresh as a closure over locals
@@ -1184,6 +1225,36 @@ func ruleEOFIdentity(c *core.Ctx) {
 					cmp, ok := a.AsCmp()
 					return ok && cmp.Op == token.NEQ && core.ObjOf(info, cmp.L) == ev && ioPkgObj(info, cmp.R) == "EOF"
 				})
+				if !excluded {
+					// a value made here (errors.New, &T{...}) is not io.EOF
+					defs := reachingDefs(g, r, ev)
+					fresh := len(defs) > 0
+					for _, d := range defs {
+						as, isAs := d.AST.(*ast.AssignStmt)
+						if !isAs || len(as.Lhs) != len(as.Rhs) {
+							fresh = false
+							break
+						}
+						for i, l := range as.Lhs {
+							if core.ObjOf(info, l) != ev {
+								continue
+							}
+							switch x := ast.Unparen(as.Rhs[i]).(type) {
+							case *ast.CallExpr:
+								if core.CalleeKey(info, x) != "errors.New" {
+									fresh = false
+								}
+							case *ast.UnaryExpr:
+								if _, isLit := ast.Unparen(x.X).(*ast.CompositeLit); x.Op != token.AND || !isLit {
+									fresh = false
+								}
+							default:
+								fresh = false
+							}
+						}
+					}
+					excluded = fresh
+				}
 				if !excluded {
 					o.FailAt(fn.Site(rs, ""), "%s: the error is returned inside a wrapper without excluding io.EOF: checkObjects no longer recognises the truncated object", c.Prog.Pos(rs.Pos()))
 				}
